@@ -165,10 +165,10 @@ func C19_ZoneHistory() {
 			za, zb = zb, za
 		}
 	} else {
-		offs := []int{19800, 7200, -21600, 28800}
-		i, j := nd.Choice(4), nd.Choice(4)
-		za, zb = time.FixedZone("IST", offs[i]), time.FixedZone("IST", offs[j])
+		pairs := [][2]int{{19800, 7200}, {7200, 19800}, {-21600, 28800}, {3600, 3600}}
+		pr := pairs[nd.Choice(len(pairs))]
+		za, zb = time.FixedZone("IST", pr[0]), time.FixedZone("IST", pr[1])
 	}
-	castValues(types.ContextWithTZ(bg, za), za, "C19/zone-history/first")
-	castValues(types.ContextWithTZ(bg, zb), zb, "C19/zone-history/second")
+	castValues(types.ContextWithTZ(bg, za), za, "C19/zone-history/first", func() string { return "2" })
+	castValues(types.ContextWithTZ(bg, zb), zb, "C19/zone-history/second", digit)
 }
